@@ -328,6 +328,9 @@ func (h *hist) opRefresh() {
 	if l != nil && *l == 0 && h.rng.Intn(3) != 0 {
 		l = sim.U32(uint32(1 + h.rng.Intn(1200)))
 	}
+	if r := h.rng.Intn(12); r < 2 {
+		c.RefreshFamily = 1 + r // 1: REQUESTED-ADDRESS-FAMILY of the allocation's own family, 2: the other one
+	}
 	h.m.Refresh(c, l)
 }
 
